@@ -3,10 +3,10 @@
 package main
 
 import (
-	"strings"
 	"encoding/json"
 	"fmt"
 	"reflect"
+	"strings"
 
 	"golang.org/x/crypto/ssh"
 
@@ -20,12 +20,13 @@ type c19Case struct {
 	Touch          int
 	Usage          int
 	Ver            int
-	Crit           string // "absent", "nilmap", "empty", "set", "other"
+	Crit           string  // "absent", "nilmap", "empty", "set", "other"
 	Raw            *string `json:",omitempty"` // undecodable catalogue text, used verbatim as KeyId
 	NilCert        bool
 	Prins          []string
 	PrinsNil       bool
 	TransID        string
+	Ext            string   `json:",omitempty"` // certificate EXTENSIONS (not critical options): "" none | pty | hosts | hosts-empty - no input of the property
 	Nulls          []string `json:",omitempty"` // KeyID members written as JSON null (present, so "required" holds; they decode as zero values)
 }
 
@@ -118,6 +119,14 @@ func c19Cert(k c19Case) *ssh.Certificate {
 		return nil
 	}
 	c := &ssh.Certificate{KeyId: c19KeyIDText(k)}
+	switch k.Ext {
+	case "pty":
+		c.Extensions = map[string]string{"permit-pty": "", "permit-port-forwarding": ""}
+	case "hosts":
+		c.Extensions = map[string]string{certutil.CriticalOptionTouchlessSudoHosts: "host1,host2", "permit-pty": ""}
+	case "hosts-empty":
+		c.Extensions = map[string]string{certutil.CriticalOptionTouchlessSudoHosts: ""}
+	}
 	switch k.Crit {
 	case "absent":
 		c.CriticalOptions = map[string]string{}
@@ -287,7 +296,7 @@ func orUnknown(s string) string {
 }
 
 func checkC19(c *ev.Ctx) {
-	c.Rule("complete product: 4 flags x touchPolicy{-1,0,1,2,3,4,7} x usage{0,1} x ver{0,1,2} x critical option{absent,nil map,empty,set,other keys} x principal lists{nil,[],[a],[a,b],[''], three with principals that already end in ':touch' / ':notouch'} x transID{'',hex,utf8}, plus undecodable KeyID catalogue (incl. every required member absent while another one is repeated), the nil certificate, 960 sequences on ONE certificate object whose critical options change between calls (every ordered pair of option states, new map / edited in place), and KeyIDs with one or two null-valued members (36 null sets x 7 bases) each classified right after each of 8 predecessors; each compared with a decision table written from the statement; every type value (incl. unknown and out-of-range) is formatted with %v / %s / String() before the product (a caller's log line must not change later answers). non-trivial = decodable KeyID selecting a known type; distinct by (flags,touch,critical option)")
+	c.Rule("complete product: 4 flags x touchPolicy{-1,0,1,2,3,4,7} x usage{0,1} x ver{0,1,2} x critical option{absent,nil map,empty,set,other keys} x principal lists{nil,[],[a],[a,b],[''], three with principals that already end in ':touch' / ':notouch'} x transID{'',hex,utf8}, plus undecodable KeyID catalogue (incl. every required member absent while another one is repeated), the nil certificate, 960 certificates whose EXTENSIONS carry a touchless-sudo-hosts entry or ordinary permits (no input of the decision), 960 sequences on ONE certificate object whose critical options change between calls (every ordered pair of option states, new map / edited in place), and KeyIDs with one or two null-valued members (36 null sets x 7 bases) each classified right after each of 8 predecessors; each compared with a decision table written from the statement; every type value (incl. unknown and out-of-range) is formatted with %v / %s / String() before the product (a caller's log line must not change later answers). non-trivial = decodable KeyID selecting a known type; distinct by (flags,touch,critical option)")
 	c.Assume("KeyID texts are built by the harness with encoding/json from a map, so 'decodes' is known by construction", "cert types are compared through their public label table")
 	if c.ReplayCase != nil {
 		var ru struct {
@@ -389,6 +398,23 @@ func checkC19(c *ev.Ctx) {
 			}
 		}
 	}
+	// certificate extensions are no input of the decision: the same product of flags x touch policies x critical-option
+	// states with extensions that merely LOOK like the touchless-sudo option
+	for _, ff := range bools {
+		for _, hw := range bools {
+			for _, hl := range bools {
+				for _, nc := range bools {
+					for _, touch := range []int{0, 1, 2, 3} {
+						for _, crit := range []string{"absent", "nilmap", "empty", "set", "other"} {
+							for _, ext := range []string{"pty", "hosts", "hosts-empty"} {
+								c19Run(c, c19Case{FF: ff, HW: hw, HL: hl, NC: nc, Touch: touch, Ver: 1, Crit: crit, Ext: ext, Prins: []string{"a"}, TransID: "aa11"})
+							}
+						}
+					}
+				}
+			}
+		}
+	}
 	c19Run(c, c19Case{NilCert: true, Prins: []string{"a"}})
 	// ONE certificate object whose critical options (and KeyID) change between calls, as a caller editing a certificate
 	// before re-signing would do: every ordered pair of option states, by assigning a new map and by editing the map in
@@ -422,14 +448,14 @@ func checkC19(c *ev.Ctx) {
 	// the previous certificate (pooled or cached decode state) changes the answer
 	{
 		preds := []c19Case{
-			{Touch: 1, Ver: 1, Crit: "absent", TransID: "aaaa", Prins: []string{"a"}},                                   // touchless
-			{Touch: 3, Ver: 1, Crit: "absent", TransID: "bbbb", Prins: []string{"a"}},                                   // touch sudo
-			{Touch: 1, Ver: 1, Crit: "set", TransID: "cccc", Prins: []string{"a"}},                                      // touchless sudo
-			{FF: true, HW: true, Touch: 3, Ver: 1, Crit: "absent", TransID: "dddd", Prins: []string{"a"}},               // firefighter
-			{FF: true, Touch: 1, Ver: 1, Crit: "set", TransID: "eeee", Prins: []string{"a"}},                            // sudo in agent
-			{NC: true, Touch: 1, Ver: 1, Crit: "absent", TransID: "ffff", Prins: []string{"a"}},                         // nonce
-			{HL: true, Touch: 1, Usage: 1, Ver: 1, Crit: "absent", TransID: "0000", Prins: []string{"a"}},               // headless touchless
-			{Touch: 7, Ver: 2, Crit: "absent", TransID: "1111", Prins: []string{"a"}},                                   // undecodable (version)
+			{Touch: 1, Ver: 1, Crit: "absent", TransID: "aaaa", Prins: []string{"a"}},                     // touchless
+			{Touch: 3, Ver: 1, Crit: "absent", TransID: "bbbb", Prins: []string{"a"}},                     // touch sudo
+			{Touch: 1, Ver: 1, Crit: "set", TransID: "cccc", Prins: []string{"a"}},                        // touchless sudo
+			{FF: true, HW: true, Touch: 3, Ver: 1, Crit: "absent", TransID: "dddd", Prins: []string{"a"}}, // firefighter
+			{FF: true, Touch: 1, Ver: 1, Crit: "set", TransID: "eeee", Prins: []string{"a"}},              // sudo in agent
+			{NC: true, Touch: 1, Ver: 1, Crit: "absent", TransID: "ffff", Prins: []string{"a"}},           // nonce
+			{HL: true, Touch: 1, Usage: 1, Ver: 1, Crit: "absent", TransID: "0000", Prins: []string{"a"}}, // headless touchless
+			{Touch: 7, Ver: 2, Crit: "absent", TransID: "1111", Prins: []string{"a"}},                     // undecodable (version)
 		}
 		members := []string{"isFirefighter", "isHWKey", "isHeadless", "isNonce", "touchPolicy", "ver", "transID", "usage"}
 		var nullSets [][]string
